@@ -498,6 +498,10 @@ Fixpoint ce (e : expr) {struct e} : option cls :=
       end
   | ETimestamp => Some CI64
   | EGetfilename => Some CStr
+  | EIncr _ m ks =>
+      (* x++ / x-- as a value: keys; mload; dload; inc/dec leaves the new int64 *)
+      if keys_ok ks && metric_ok m (exprs_len ks) && mtype_eqb (mtype_of (mty D m)) TyInt
+      then Some CI64 else None
   end
 with keys_ok (ks : exprs) {struct ks} : bool :=
   match ks with
@@ -700,6 +704,16 @@ Proof.
     rewrite Hg. cbn [vguard vbind apop]. rewrite Hoz. cbn [vbind apop]. rewrite Hoy. reflexivity.
   - (* ETimestamp *) intros c [= <-] pc A. apply xseg1. reflexivity.
   - (* EGetfilename *) intros c [= <-] pc A. apply xseg1. reflexivity.
+  - (* EIncr *)
+    intros dec m ks IH c H pc A. cbn in H.
+    destruct (keys_ok ks) eqn:Hk; try discriminate. destruct (metric_ok m (exprs_len ks)) eqn:Hm; try discriminate.
+    destruct (mtype_eqb (mtype_of (mty D m)) TyInt) eqn:Ht; try discriminate.
+    injection H as <-. cbn [cexpr].
+    destruct (IH eq_refl pc A) as (L & HL & Hs & Hx).
+    change [ins Mload (OInt (zn m)); ins Dload (OInt (zl (exprs_len ks))); ins (if dec then Dec else Inc) ONil]
+      with ([ins Mload (OInt (zn m)); ins Dload (OInt (zl (exprs_len ks)))] ++ [ins (if dec then Dec else Inc) ONil]).
+    rewrite app_assoc. eapply xseg_app; [eapply lval_xseg; eauto|].
+    apply xseg1. destruct (mtype_of (mty D m)); try discriminate. destruct dec; reflexivity.
   - (* XNil *) intros _ pc A. exists []. repeat split; auto. apply xseg_nil.
   - (* XCons *)
     intros e IHe r IHr H pc A. cbn in H.
